@@ -3,6 +3,7 @@ package storage
 import (
 	"encoding/hex"
 	"fmt"
+	"os"
 
 	"0chain.net/chaincore/transaction"
 	"0chain.net/core/encryption"
@@ -11,6 +12,9 @@ import (
 	"verif/worlds/ledger"
 	"verif/worlds/wkit"
 )
+
+// debugOut (development only): log contract outputs into the event log.
+var debugOut = os.Getenv("VERIF_ST_DEBUG") != ""
 
 const (
 	zcn = int64(1e10)
@@ -187,6 +191,9 @@ func (sw *SW) callTo(to, fromID, fromPK, fn string, input any, value int64) *led
 	t.PublicKey = fromPK
 	o := r.Submit(t)
 	w.Tr.Outcome("st/" + fn + "/" + o.Class)
+	if debugOut {
+		w.Tr.Event("    %s by %s -> %s: %.300s %v", fn, short(fromID), o.Class, t.TransactionOutput, o.Err)
+	}
 	return o
 }
 
